@@ -12,7 +12,7 @@ done
 /venv/bin/python - <<'PY'
 import sys
 sys.path.insert(0, "harness")
-import tlc, puml, fragment, jobdef, pumlsyn, learner, learn_engine, common, findings, store, storegen  # noqa
+import tlc, puml, fragment, jobdef, pumlsyn, learner, learn_engine, common, findings, store, storegen, seqr  # noqa
 print("harness imports ok")
 PY
 echo "setup ok"
